@@ -60,6 +60,12 @@ def check_C15(ctx):
     if mm is None:
         return
     report_mismatches(ctx, mm, st, "MemIdm answers differ from the two-list reference (model proved equal to it, theorem C15_refine) on %d generated histories")
+    # the same on a Windows-typed MemIdm (administrator names ContainerAdministrator / Administrators): build with the OS-type tag
+    stw = {"name": "idmwin", "harness": "idmwin", "driver": "idm", "tags": "avfs_setostype"}
+    mmw = ctx.stream("idmwin", "idmwin", "idm", tags="avfs_setostype")
+    if mmw is None:
+        return
+    report_mismatches(ctx, mmw, stw, "a Windows-typed MemIdm (-tags avfs_setostype) answers differently from the two-list reference on %d generated histories")
     concurrent_part(ctx)
 
 
